@@ -22,7 +22,9 @@ PARTS = [("contracts.c09_runner", ["pynenc.runner.thread_runner:ThreadRunner._wa
                             "pynenc.runner.thread_runner:ThreadRunner._reclaim_available_slots",
                             "pynenc.runner.thread_runner:ThreadRunner._on_start"]),
          # the waiters of an invocation are released exactly when a FINAL status is accepted - a refused request leaves the wait graph alone
-         ("contracts.c01", ["pynenc.orchestrator.base_orchestrator:BaseOrchestrator.set_invocation_status"])]
+         ("contracts.c01", ["pynenc.orchestrator.base_orchestrator:BaseOrchestrator.set_invocation_status"]),
+         # a declared wait reaches the wait graph for every awaited id, whatever that invocation's status is at the moment
+         ("contracts.c03", ["pynenc.orchestrator.base_orchestrator:BaseOrchestrator.waiting_for_results"])]
 
 
 def contracts(T, reg, ctx):
@@ -75,3 +77,105 @@ def wait_strategy(ctx):
 
 def lemmas(T, reg, ctx):
     return [wait_strategy]
+
+
+# --------------------------------------------------------------------------- bounded: the report through the orchestrator API, and nested wait trees on the real runner
+def waits_in_every_status(ctx):
+    """A parent declares (through BaseOrchestrator.waiting_for_results) that it waits on a child that is in status s; the child then becomes
+    runnable again (or already is): get_blocking_invocations must report it - it is awaited, unfinished, runnable and waits on nothing."""
+    from pyvc.prop import BoundedResult
+    from pynenc.invocation.status import InvocationStatus as S
+    from . import verif_tasks as vt
+    from .realapp import new_invocation, real_app, runner_ctx
+    res = BoundedResult("waits_in_every_status", "child in {REGISTERED, PENDING, RUNNING, RETRY, REROUTED} when the wait is declared x {in-memory, SQLite}: after the child is "
+                        "runnable again get_blocking_invocations reports it; after it finishes it is reported no more")
+    n = 0
+    for backend in ("mem", "sqlite"):
+        for s in ("REGISTERED", "PENDING", "RUNNING", "RETRY", "REROUTED"):
+            n += 1
+            with real_app(backend) as app:
+                orch = app.orchestrator
+                R = runner_ctx("runner-w")
+                orch.register_runner_heartbeats(["runner-w"])
+                parent = new_invocation(app, vt.add, x=1, y=0)
+                list(orch.get_invocations_to_run(1, R))
+                orch.set_invocation_status(parent.invocation_id, S.RUNNING, R)
+                child = new_invocation(app, vt.add, x=2, y=0)
+                cid = child.invocation_id
+                try:
+                    if s in ("PENDING", "RUNNING", "RETRY", "REROUTED"):
+                        got = [i.invocation_id for i in orch.get_invocations_to_run(1, R)]
+                        if cid not in got:
+                            raise RuntimeError(f"could not claim the child (got {got})")
+                    if s in ("RUNNING", "RETRY"):
+                        orch.set_invocation_status(cid, S.RUNNING, R)
+                    if s == "RETRY":
+                        orch.set_invocation_retry(cid, vt.Retriable("again"), R)
+                    if s == "REROUTED":
+                        orch.reroute_invocations({cid}, R)
+                    orch.waiting_for_results(parent.invocation_id, [cid])
+                    if s == "PENDING":
+                        orch.reroute_invocations({cid}, R)
+                    if s == "RUNNING":
+                        orch.set_invocation_retry(cid, vt.Retriable("again"), R)
+                    reported = list(orch.get_blocking_invocations(5))
+                    if cid not in reported:
+                        res.failures.append({"what": f"{backend}: wait declared while the child was {s}; now the child is runnable ({orch.get_invocation_status(cid).name}), awaited and "
+                                                     f"unfinished, but get_blocking_invocations reports {reported}", "input": {"backend": backend, "status_at_declaration": s},
+                                             "finding_key": f"{backend}:declared-in-{s}"})
+                except Exception as e:      # noqa: BLE001
+                    res.failures.append({"what": f"{backend}: scenario {s} could not run: {type(e).__name__}: {str(e)[:140]}", "finding_key": f"{backend}:scenario-error"})
+    res.cases = n
+    res.distinct = n
+    res.samples = [{"status_at_declaration": "RUNNING"}]
+    return res
+
+
+def nested_wait_trees(ctx):
+    """Real ThreadRunner with 1 and 2 slots on the in-memory stack: chains and small group trees of nested waits complete (each within 20 s).
+    Bounded stand-in for 'any finite tree of nested calls completes' - the one-step progress lemma is what is proved."""
+    import threading
+    from pyvc.prop import BoundedResult
+    from . import verif_tasks as vt
+    from .realapp import real_app
+    thorough = ctx.tier == "thorough"
+    res = BoundedResult("nested_wait_trees", "real ThreadRunner, max_threads in {1, 2}: wait chains of depth 1..3" + ("..4" if thorough else "") + " and group trees (fan-out 2, depth 2) "
+                        "of tasks waiting on sub-tasks: every tree completes within 20 s")
+    threading.excepthook = lambda args: None
+    n = 0
+    shapes = [("chain", d) for d in ((1, 2, 3, 4) if thorough else (1, 2, 3))] + [("tree", 2)]
+    for slots in (1, 2):
+        for kind, depth in shapes:
+            n += 1
+            with real_app("mem", max_threads=slots, min_threads=1) as app:
+                from pynenc.runner.thread_runner import ThreadRunner
+                app.runner = ThreadRunner(app)
+                app.conf.runner_loop_sleep_time_sec = 0.01
+                app.conf.invocation_wait_results_sleep_time_sec = 0.01
+                t = app.task(vt.nest)
+                vt.NEST_TASK[0] = t
+                rt = threading.Thread(target=app.runner.run, daemon=True)
+                rt.start()
+                box = {}
+
+                def ask():
+                    try:
+                        box["v"] = t(kind, depth).result
+                    except Exception as e:      # noqa: BLE001
+                        box["v"] = f"raised {type(e).__name__}: {e}"
+                w = threading.Thread(target=ask, daemon=True)
+                w.start()
+                w.join(20)
+                done = "v" in box
+                app.runner.stop_runner_loop()
+                # (a hung tree also hangs the stop of the runner: F-C11-1; the daemon threads end with the process)
+                rt.join(0.5 if not done else 5)
+                expect = depth if kind == "chain" else 2 ** depth
+                if not done or box["v"] != expect:
+                    res.failures.append({"what": f"ThreadRunner with {slots} slot(s): {kind} of depth {depth} " + ("did not complete within 20 s (waiting tasks keep their threads, "
+                                                 "the awaited sub-task is never started)" if not done else f"returned {box['v']!r}, expected {expect}"),
+                                         "input": {"slots": slots, "shape": kind, "depth": depth}, "finding_key": f"tree-does-not-complete:{slots}"})
+    res.cases = n
+    res.distinct = n
+    res.samples = [{"slots": 1, "shape": "chain", "depth": 2}]
+    return res
